@@ -51,6 +51,9 @@ def judge_write(content, w, v, reads, cfgname, hist):
         return None           # the library refused the configuration: no claim
     if w["fail"] == "1" or w["close"] != "1":
         return None           # a failed call makes no claim
+    if int(w.get("badclose", "0")) > 0:
+        # "regardless of which file descriptors are free": whatever the caller opens in the meantime gets that number
+        return "writer-closes-a-descriptor-it-does-not-own", "%s close() call(s) on a descriptor that is not open during zck_close/zck_free" % w["badclose"]
     if w["file"].startswith("#"):
         return None
     f = core.unhex(w["file"])
